@@ -382,7 +382,9 @@ impl<Leaf: MerkleLeaf, Root: MerkleRoot, Proof: MerkleProof> MerkleTree<Leaf, Ro
     /// to the given `hash` at the given `index` in the tree corresponding to the given `root`.
     #[must_use]
     fn check_hash_proof(hash: Hash, index: usize, root: &Root, proof: &Proof) -> bool {
+        // the index has to lie within the width of the tree, i.e. fit into one bit per proof element
         proof.as_ref().len() <= EMPTY_ROOTS.len()
+            && index >> proof.as_ref().len() == 0
             && *Self::derive_hash_root(hash, index, proof).as_hash() == *root.as_hash()
     }
 
@@ -446,6 +448,10 @@ impl<Leaf: MerkleLeaf, Root: MerkleRoot, Proof: MerkleProof> MerkleTree<Leaf, Ro
                 _ => Self::hash_pair(h, &node),
             };
             i /= 2;
+        }
+        // the index has to lie within the width of the tree
+        if i != 0 {
+            return None;
         }
         Some(node.into())
     }
